@@ -7,14 +7,14 @@ LEVEL = 'proof'
 
 def run(rep):
     enginep.unify_deductive(rep)      # facts are matched by unification: the unify family against su (C02's contracts)
-    enginep.engine_deductive(rep, enginep.META_FUNS + ['engine.YP.query', 'engine.unify'])
+    enginep.engine_deductive(rep, enginep.META_FUNS + enginep.COPY_FUNS + ['engine.YP.query', 'engine.unify'])      # findall's instances are copy_terms' copies
     # an inline goal reaches these builtins only through the compiled clause: a predicate goal (=, \\=, call, once, findall included) is
     # compiled to one query(name, args) loop around the rest of the body (compile_body / compile_predicate contracts of C01)
     from . import control
     control.body_deductive(rep)
     q = rep.tier == 'quick'
     fw.standin(rep, 's_c09.py', ['run', rep.seed, 400], '= and \\= as goals (API and compiled) vs the engine\'s unify on every pair of term shapes, '
-               'including pairs whose unifier is cyclic', 'all 361 ordered pairs of 19 term shapes')
+               'including pairs whose unifier is cyclic', 'all 361 ordered pairs of 19 term shapes; 7 findall templates x API/compiled')
     fw.standin(rep, 'difftest.py', ['run', 'F3', rep.seed, 6000 if q else 40000],
                'meta-call programs (inline / run-time bound / atom goals, extra arguments, 0-1-many answers) vs reference interpreter',
                'random F3 programs; control constructs passed to call/N are outside the statement and excluded')
